@@ -420,13 +420,27 @@ Definition so_setattr (o : nat) (c : nat) (v : val) : M unit :=
    TypeError -- raised before anything is cached or queued on a lazy object (fix 6e79cab), after the validation of the
    column values on a direct one *)
 Definition is_col (c : nat) : bool := Nat.ltb c ncols.
+(* keywords that are not columns: 4 is a property of the class whose setter refuses a bad value with ValueError and
+   otherwise stores nothing the model tracks; any other one (3 in the harness) is unknown to the class.  They are handed
+   to setattr in dict order AFTER every column value is validated and BEFORE anything is cached, queued or written
+   (since 71eb426 also on a lazy class); a lazy class refuses an unknown keyword before it validates anything. *)
+Definition px_kw : nat := 4.
+Definition unknown_kw (c : nat) : bool := negb (is_col c) && negb (Nat.eqb c px_kw).
+Fixpoint run_extras (kvs : list (nat * val)) : option exc :=
+  match kvs with
+  | [] => None
+  | (c, v) :: r =>
+      if is_col c then run_extras r
+      else if Nat.eqb c px_kw then match v with VBad => Some EValue | _ => run_extras r end
+      else Some ETypeError
+  end.
 Definition so_set (o : nat) (kvs : list (nat * val)) : M unit :=
   i <- gets (fun s => get_inst s o) ;;
   let kw := filter (fun cv => is_col (fst cv)) (as_dict kvs) in
-  let unknown := existsb (fun cv => negb (is_col (fst cv))) kvs in
+  let unknown := existsb (fun cv => unknown_kw (fst cv)) kvs in
   (if is_lazy (i_k i) && unknown then raise ETypeError else ret tt) ;;;
   validate_all kw ;;;
-  (if unknown then raise ETypeError else ret tt) ;;;
+  (match run_extras (as_dict kvs) with Some e => raise e | None => ret tt end) ;;;
   if is_lazy (i_k i) then
     upd_inst o (fun i => i_with_dirty (i_with_pending (fold_left (fun i cv => set_val (fst cv) (snd cv) i) kw i)
                                                      (pending_update kw (i_pending i)))
